@@ -163,6 +163,43 @@ def flags_before_add(entry):
     return final_flags(probe)[0]
 
 
+# ------------------------------------------------------------------------------------------------
+# tight-coupling convergence of the stock TightCoupler (doc/user/physics_coupling.rst: eps = |old - new| for a scalar,
+# L2 norm of the difference for a vector, max over rows of the row L2 norms for 2-D; converged when eps < tolerance)
+
+COUPLING_KINDS = ("float", "int", "list", "list2d", "ndarray")
+
+
+def coupling_initial(kind):
+    return {"float": 1.0, "int": 1, "list": [1.0, 2.0], "list2d": [[1.0, 2.0], [3.0, 4.0]], "ndarray": [1.0, 2.0]}[kind]
+
+
+def coupling_step(kind, factor, tol):
+    """Change applied by one coupled interaction: ``factor`` tolerances (0 = none); whole numbers for the int kind.
+    |factor| is one of 0, 0.25, 0.5 (clearly converged for every kind) or >= 2 (clearly not)."""
+    if kind == "int":
+        if abs(factor) < 1:
+            return 0
+        return (int(abs(factor) * tol) + 1) * (1 if factor > 0 else -1)
+    return factor * tol
+
+
+def coupling_advance(kind, value, d):
+    if kind in ("float", "int"):
+        return value + d
+    if kind in ("list", "ndarray"):
+        return [value[0] + d, value[1] - d]
+    return [[value[0][0] + d, value[0][1]], [value[1][0], value[1][1] - d / 2.0]]
+
+
+def coupling_eps(kind, old, new):
+    if kind in ("float", "int"):
+        return abs(new - old)
+    if kind in ("list", "ndarray"):
+        return sum((a - b) ** 2 for a, b in zip(old, new)) ** 0.5
+    return max(sum((a - b) ** 2 for a, b in zip(ro, rn)) ** 0.5 for ro, rn in zip(old, new))
+
+
 def select(stack, event, deferred_names=(), deferred_cycle=0, cycle=0, excluded=()):
     """Names of the interfaces called at ``event``, in calling order."""
     chosen = []
@@ -209,6 +246,8 @@ class Scheduler:
         self.events = []
         self.state = {"cycle": 0, "node": 0}
         self.script_pos = {i["name"]: 0 for i in self.stack}
+        self.values = {i["name"]: coupling_initial(i.get("valueKind", "float")) for i in self.stack}
+        self.notes = set()  # what the coupling sequences exercised (classification only)
         self.cycles_run = []  # cycles that ran to their end
         self.left_open = set()
 
@@ -270,9 +309,17 @@ class Scheduler:
             self.emit("Coupled", name, [iteration], coupledIteration=iteration + 1)
             i = self.byname[name]
             if i.get("coupled"):
-                script = i["script"]
-                flags.append(bool(script[self.script_pos[name] % len(script)]))
+                # the interaction moves the coupled value; the coupler compares it with the value before the iteration
+                kind, factors = i["valueKind"], i["factors"]
+                factor = factors[self.script_pos[name] % len(factors)]
                 self.script_pos[name] += 1
+                old = self.values[name]
+                new = coupling_advance(kind, old, coupling_step(kind, factor, i["tol"]))
+                self.values[name] = new
+                ok = coupling_eps(kind, old, new) < i["tol"]
+                flags.append(ok)
+                if not ok:
+                    self.notes.add(("decreasing-" if factor < 0 else "increasing-") + ("scalar" if kind in ("float", "int") else "array"))
         return all(flags)
 
     def couple_node(self, cycle):
